@@ -717,9 +717,32 @@ func planCopies(pkgs []*packages.Package, d *declInfo, recs []renameRec) int {
 		keys = append(keys, k)
 	}
 	sort.Strings(keys)
+	typeOld := map[string]string{} // current type name → reviewed type name
+	for _, r := range recs {
+		if r.kind == "type" {
+			typeOld[r.from] = r.to
+		}
+	}
+	reviewedKey := func(k string) string { // a method of a renamed type is known under the reviewed type's name
+		if !strings.HasPrefix(k, "(") {
+			return k
+		}
+		i := strings.Index(k, ")")
+		recv, star, pre := k[1:i], "", ""
+		if strings.HasPrefix(recv, "*") {
+			star, recv = "*", recv[1:]
+		}
+		if strings.HasPrefix(recv, "sexp.") {
+			pre, recv = "sexp.", recv[5:]
+		}
+		if o, ok := typeOld[recv]; ok {
+			recv = o
+		}
+		return "(" + star + pre + recv + ")" + k[i+1:]
+	}
 	for _, k := range keys {
 		fn := d.funcObj[k]
-		if _, reviewed := frozenDeclFuncs[k]; reviewed || renamed[fn] || exportedName(fn.Name()) || len(frozenDeclFuncs) == 0 {
+		if _, reviewed := frozenDeclFuncs[reviewedKey(k)]; reviewed || renamed[fn] || exportedName(fn.Name()) || len(frozenDeclFuncs) == 0 {
 			continue
 		}
 		if d.methods[fn.Name()] && fn.Type().(*types.Signature).Recv() != nil {
